@@ -282,6 +282,34 @@ def octValue (ds : Bytes) : Nat :=
     let v := ds.foldl (fun acc c => acc * 8 + (c.toNat - 0x30)) 0
     if v > 255 then 255 else v
 
+/-- The single-character escapes of formatInto's `switch c = format[i]`. -/
+def simpleEscape (e : UInt8) : Option UInt8 :=
+  if e = 0x61 then some 0x07                 -- \a
+  else if e = 0x62 then some 0x08            -- \b
+  else if e = 0x65 ∨ e = 0x45 then some 0x1b -- \e \E
+  else if e = 0x66 then some 0x0c            -- \f
+  else if e = 0x6e then some 0x0a            -- \n
+  else if e = 0x72 then some 0x0d            -- \r
+  else if e = 0x74 then some 0x09            -- \t
+  else if e = 0x76 then some 0x0b            -- \v
+  else if e = 0x5c ∨ e = 0x27 ∨ e = 0x22 ∨ e = 0x3f then some e  -- \\ \' \" \?
+  else none
+
+/-- formatInto after a backslash: `e` is the escape character, `rest` what follows it. -/
+def fmtEscape (e : UInt8) (rest : Bytes) : Bytes × Bytes :=
+  match simpleEscape e with
+  | some b => ([b], rest)
+  | none =>
+    if 0x30 ≤ e.toNat ∧ e.toNat ≤ 0x37 then
+      let dr := readDigits 3 false (e :: rest)
+      ([UInt8.ofNat (octValue dr.1)], dr.2)
+    else if e = 0x78 ∨ e = 0x75 ∨ e = 0x55 then
+      let dr := readDigits (if e = 0x75 then 4 else if e = 0x55 then 8 else 2) true rest
+      if dr.1 = [] then ([0x5c, e], rest)            -- no digit: `\x` stays as it is
+      else if e = 0x78 then ([UInt8.ofNat (hexValue dr.1)], dr.2)
+      else (encodeRune (hexValue dr.1), dr.2)
+    else ([0x5c, e], rest)                           -- no escape sequence
+
 /-- One iteration of the `for i := 0; i < len(format); i++` loop of formatInto with `args == nil`
     at `c = format[i]`, `rest = format[i+1:]`: the bytes written and the input left for the next
     iteration. -/
@@ -289,26 +317,7 @@ def fmtStep (c : UInt8) (rest : Bytes) : Bytes × Bytes :=
   if c = 0x5c then
     match rest with
     | [] => ([0x5c], [])                               -- trailing backslash
-    | e :: rest' =>
-      if e = 0x61 then ([0x07], rest')                 -- \a
-      else if e = 0x62 then ([0x08], rest')            -- \b
-      else if e = 0x65 ∨ e = 0x45 then ([0x1b], rest') -- \e \E
-      else if e = 0x66 then ([0x0c], rest')            -- \f
-      else if e = 0x6e then ([0x0a], rest')            -- \n
-      else if e = 0x72 then ([0x0d], rest')            -- \r
-      else if e = 0x74 then ([0x09], rest')            -- \t
-      else if e = 0x76 then ([0x0b], rest')            -- \v
-      else if e = 0x5c ∨ e = 0x27 ∨ e = 0x22 ∨ e = 0x3f then ([e], rest')
-      else if 0x30 ≤ e.toNat ∧ e.toNat ≤ 0x37 then
-        let dr := readDigits 3 false (e :: rest')
-        ([UInt8.ofNat (octValue dr.1)], dr.2)
-      else if e = 0x78 ∨ e = 0x75 ∨ e = 0x55 then
-        let max := if e = 0x75 then 4 else if e = 0x55 then 8 else 2
-        let dr := readDigits max true rest'
-        if dr.1 = [] then ([0x5c, e], rest')           -- no digit: `\x` stays as it is
-        else if e = 0x78 then ([UInt8.ofNat (hexValue dr.1)], dr.2)
-        else (encodeRune (hexValue dr.1), dr.2)
-      else ([0x5c, e], rest')                          -- no escape sequence
+    | e :: rest' => fmtEscape e rest'
   else ([c], rest)
 
 /-- `formatInto(sb, format, nil)` (fuel = remaining length). -/
